@@ -360,3 +360,30 @@ def bspline(ctx, degree):
         ctx.eq('Bspline.partial in its coordinate == derivative (point %d)' % j, f.partial(t, 1), fd, tol=1e-5)
         ctx.eq('Bspline.partial in the other coordinate == 0 (point %d)' % j, f.partial(t, 0), 0.0)
     ctx.eq('Bspline: array evaluation == point-wise', np.asarray(f(pts)), np.array([float(f(pts[:, j])) for j in range(pts.shape[1])]))
+
+
+# ------------------------------------------------------------ points stored with an integer dtype
+@scenario('C14', 'int_point', lambda tier: [{'family': fam, 'param': p, 'dim': dim, 'index': index, 'as_list': al}
+                                             for fam in FAMILIES for p in ([3] if fam == 'monomial' else [[3, 2.0]] if fam == 'legendre' else [None])
+                                             for (dim, index) in ((1, 0), (3, 1)) for al in (False, True)])
+def int_point(ctx, family, param, dim, index, as_list):
+    """a point handed over as an integer array / list of Python ints: value, partials, gradient and Hessian are those at the same point stored as floats
+    (symbolic family parameters; the derivative formulas at float points are the `derivatives` claim)"""
+    tdt = ctx.R.transform
+    if ctx.mode == 'tv':
+        raise SkipTV()
+    f, approx = _make(ctx, family, tdt, index, dim, param)
+    vals = [1, -2, 3][:dim]
+    ti = list(vals) if as_list else np.array(vals, dtype=int)
+    tf = np.array(vals, dtype=float)
+    has_p2 = family != 'pgauss'
+    kw = {'tol': 1e-12}
+    ctx.eq('value at an integer-typed point == value at the float point', f(ti), f(tf), **kw)
+    for a in range(dim):
+        ctx.eq('partial(t, %d) at an integer-typed point == at the float point' % a, f.partial(ti, a), f.partial(tf, a), **kw)
+    gi, gf = f.gradient(ti), f.gradient(tf)
+    ctx.check('gradient at an integer-typed point has one entry per coordinate', np.shape(gi) == (dim,))
+    ctx.eq('gradient at an integer-typed point == at the float point', gi, gf, **kw)
+    if has_p2:
+        ctx.eq('partial2 at an integer-typed point == at the float point', f.partial2(ti, index, index), f.partial2(tf, index, index), **kw)
+        ctx.eq('hessian at an integer-typed point == at the float point', f.hessian(ti), f.hessian(tf), **kw)
